@@ -1,7 +1,8 @@
-(* C15 — released space is reused: repeating a net-zero cycle does not grow the file.  Statements are printed by Check below and compared with C15.expected; proofs in proofs/ReuseProofs.v.  PARTIAL: the allocation-level theorems (reuse before growth, LIFO reuse of a freed chain, no MiniFAT / mini-stream chain extension while retained capacity suffices) are proved; the history-level statement netzero_stable (file size constant from the second repetition of ANY net-zero cycle) is checked by enumeration on the real crate and by evaluation of the model on the witness cycles. *)
+(* C15 — released space is reused: repeating a net-zero cycle does not grow the file.  Statements are printed by Check below and compared with C15.expected; proofs in proofs/ReuseProofs.v.  PARTIAL: the allocation-level theorems (reuse before growth, LIFO reuse of a freed chain, no MiniFAT / mini-stream chain extension while retained capacity suffices) are proved; Also proved (proofs/NetZero.v): THE PROPERTY FOR NAMESPACE CYCLES - creation takes a free directory slot when there is one and otherwise grows the file by one directory sector, removal frees exactly one slot and never changes the size; hence for EVERY balanced cycle of create_storage / create_new_stream / remove_storage / remove_stream (any interleaving) on a state reached by a namespace history, repetitions 2 and 3 have the same size as repetition 1 (file length, sector count, table length), and for net-zero cycles (the same paths created and removed) the table represents the same abstract tree after every repetition - so 'returns to the same logical state' is a conclusion, not a hypothesis.  NOT proved: cycles that write stream data (checked by enumeration on the real crate: prefix with holes + cycle in any removal order, up to 80 repetitions while the mini stream keeps growing, one case in four reopening the bytes after every repetition). *)
 From Cfb.model Require Import Base Names DirEnt State Alloc Dir Mini Store Handle Open Cfb.
 From Cfb.gen Require Import Consts.
-From Cfb.proofs Require Import ReuseProofs.
+From Cfb.spec Require Import Tree.
+From Cfb.proofs Require Import ReuseProofs ReadonlyTotal PersistProofs HistoryRefine NetZero.
 Set Printing Width 110.
 
 (* with a free sector available, allocation takes it and the file does not grow *)
@@ -39,3 +40,51 @@ Theorem C15_witness_cycle_stable : ltac:(let t := type of Examples.small_stream_
 Proof. exact Examples.small_stream_cycle_stable. Qed.
 Check C15_witness_cycle_stable.
 Print Assumptions C15_witness_cycle_stable.
+
+(* with a free directory slot the size is unchanged and one slot is used; without, the slot count stays 0 (one sector was added and filled) *)
+Theorem C15_creation_takes_a_free_slot_or_one_sector : ltac:(let t := type of create_storage_effect in exact t).
+Proof. exact create_storage_effect. Qed.
+Check C15_creation_takes_a_free_slot_or_one_sector.
+Print Assumptions C15_creation_takes_a_free_slot_or_one_sector.
+
+(* same for remove_stream of an empty stream (remove_stream_effect) *)
+Theorem C15_removal_frees_one_slot_and_keeps_the_size : ltac:(let t := type of remove_storage_effect in exact t).
+Proof. exact remove_storage_effect. Qed.
+Check C15_removal_frees_one_slot_and_keeps_the_size.
+Print Assumptions C15_removal_frees_one_slot_and_keeps_the_size.
+
+(* create / remove / create / remove of one storage: the second repetition does not grow the file *)
+Theorem C15_single_entry_cycle_stable : ltac:(let t := type of storage_cycle_stable in exact t).
+Proof. exact storage_cycle_stable. Qed.
+Check C15_single_entry_cycle_stable.
+Print Assumptions C15_single_entry_cycle_stable.
+
+(* ANY interleaving of creations and removals with as many of each: repetitions 2 and 3 have the size of repetition 1 *)
+Theorem C15_balanced_cycles_are_stable : ltac:(let t := type of balanced_cycle_stable in exact t).
+Proof. exact balanced_cycle_stable. Qed.
+Check C15_balanced_cycles_are_stable.
+Print Assumptions C15_balanced_cycles_are_stable.
+
+(* in the specification a cycle that creates and removes the same paths ends in the tree it started from *)
+Theorem C15_net_zero_cycles_return_to_the_same_tree : ltac:(let t := type of matched_cycle_tree in exact t).
+Proof. exact matched_cycle_tree. Qed.
+Check C15_net_zero_cycles_return_to_the_same_tree.
+Print Assumptions C15_net_zero_cycles_return_to_the_same_tree.
+
+(* THE PROPERTY for namespace cycles: same abstract tree after every repetition and the same file size from the first repetition on *)
+Theorem C15_net_zero_cycles_are_stable : ltac:(let t := type of netzero_cycle_stable in exact t).
+Proof. exact netzero_cycle_stable. Qed.
+Check C15_net_zero_cycles_are_stable.
+Print Assumptions C15_net_zero_cycles_are_stable.
+
+(* prefix histories: any accepted namespace history from a fresh file, then the cycle three times *)
+Theorem C15_the_same_after_any_namespace_history : ltac:(let t := type of netzero_after_history in exact t).
+Proof. exact netzero_after_history. Qed.
+Check C15_the_same_after_any_namespace_history.
+Print Assumptions C15_the_same_after_any_namespace_history.
+
+(* non-vacuity: V3, a 3-entry cycle removed out of order: file length 3, then 4, 4, 4 sectors (the first repetition adds a directory sector) *)
+Theorem C15_cycle_example : ltac:(let t := type of Example.sizes in exact t).
+Proof. exact Example.sizes. Qed.
+Check C15_cycle_example.
+Print Assumptions C15_cycle_example.
